@@ -151,7 +151,7 @@ def run(ctx):
                 'make_filtration_non_decreasing) with the reported added simplices, Rips from distance matrices and from points on a line; non-trivial = the graph has a triangle; distinct by text')
     vlib.lean_stage(ctx, MODULE, THEOREMS)
     src = os.path.join(vlib.VERIF, 'harness', 'hC04.cpp')
-    exes, errs = vlib.build_many(ctx, [dict(name='hC04_full', src=src, defines=['OPTN=1']), dict(name='hC04_default', src=src, defines=['OPTN=0'])])
+    exes, errs = vlib.build_many(ctx, [dict(name='hC04_full', src=src, defines=['OPTN=1']), dict(name='hC04_default', src=src, defines=['OPTN=0']), dict(name='hC04_int', src=src, defines=['OPTN=2'])])
     if errs:
         ctx.violation('harness-build', 'harness does not compile against /repo: ' + str(errs)[-1500:], found_input=False); return
     drv = [vlib.driver_path(), 'C04']
@@ -166,6 +166,9 @@ def run(ctx):
         return any((a, b) in es and (a, c_) in es and (b, c_) in es for a, b, c_ in itertools.combinations(sorted(vs), 3))
     vlib.correspondence(ctx, 'full_featured', [exes['hC04_full']], drv, [gen_case(ctx.rng, True) for _ in range(n)], nontrivial=nontriv, oracle=oracle, shrink=False)
     vlib.correspondence(ctx, 'default', [exes['hC04_default']], drv, [gen_case(ctx.rng, False) for _ in range(n)], nontrivial=nontriv, oracle=oracle, shrink=False)
+    # an integral Filtration_value (the value helpers have a separate branch for types without NaN); the Rips builders need floating point values
+    if exes.get('hC04_int'):
+        vlib.correspondence(ctx, 'full_featured_int_values', [exes['hC04_int']], drv, [[l for l in gen_case(ctx.rng, True) if not l.startswith('rips')] for _ in range(n)], nontrivial=nontriv, oracle=oracle, shrink=False)
     # exhaustive: all graphs on 4 vertices with weights in {1,2}, every edge order of up to 4 edges (thorough: 5 vertices sampled)
     ex = []
     pairs = list(itertools.combinations(range(4), 2))
@@ -183,6 +186,6 @@ def run(ctx):
 
 
 def replay_cmds(ctx, rp):
-    k = 0 if rp.get('stream', '') == 'default' else 1
+    k = 0 if rp.get('stream', '') == 'default' else 2 if 'int_values' in rp.get('stream', '') else 1
     exe, err = vlib.build_harness(ctx, 'hC04_%d' % k, os.path.join(vlib.VERIF, 'harness', 'hC04.cpp'), defines=['OPTN=%d' % k])
     return ([exe], [vlib.driver_path(), 'C04']) if exe else None
